@@ -260,12 +260,21 @@ def eval_haze(ctx, spec):
         bottom, top, mix = ex['flat_bottomP'], ex['flat_topP'], ex['flat_mix_ratio']
         d = ctx.model().call('c19.flat', C.L(lev), C.F(bottom), C.F(top), C.F(mix))
         msig = np.array(d.list())
-        ctx.check_close('FlatMie sigma_xsec vs Haze.flatSigma', sig[:, 0], msig, spec, rel=1e-9, abs_=1e-12 * abs(mix))
         lb = llev.max() if bottom < 0 else math.log10(bottom) if bottom > 0 else -np.inf
         lt = llev.min() if top < 0 else math.log10(top) if top > 0 else -np.inf
         lo, hi = min(lb, lt), max(lb, lt)
         ov = np.maximum(np.minimum(hi, llev[:-1]) - np.maximum(lo, llev[1:]), 0.0)
         width = llev[:-1] - llev[1:]
+        # the weights are normalised by the largest overlap, so an overlap at rounding level (a bound within an ulp
+        # of the outermost level) decides between "nothing" and "full mix": whether log10 rounds up or down is not
+        # modelled, such cases are only judged on the layers that are outside by a margin
+        e12 = 1e-12 * (1 + abs(lo) + abs(hi))
+        ov_wide = np.maximum(np.minimum(hi + e12, llev[:-1]) - np.maximum(lo - e12, llev[1:]), 0.0)
+        degenerate = bool(ov.max() <= 1e-9 * width.max() and ov_wide.max() > 0)
+        if degenerate:
+            ctx.bucket('flat:only-overlap-is-at-rounding-level')
+        else:
+            ctx.check_close('FlatMie sigma_xsec vs Haze.flatSigma', sig[:, 0], msig, spec, rel=1e-9, abs_=1e-12 * abs(mix))
         if not np.all(sig == sig[:, :1]):
             ctx.violation('flat-not-grey', 'grey haze opacity depends on wavenumber', spec, dict(sigma=sig[:3]))
         s = sig[:, 0]
@@ -285,7 +294,7 @@ def eval_haze(ctx, spec):
             if not C.close(float(s.max()), mix, rel=1e-12):
                 ctx.violation('flat-max-not-mix:' + spec['cls'], 'the layer with the largest overlap must carry exactly mix',
                               spec, dict(max=float(s.max()), mix=mix))
-        elif np.any(s != 0) and ov.max() == 0:
+        elif np.any(s != 0) and ov.max() == 0 and not degenerate:
             ctx.violation('flat-empty-window-nonzero:' + spec['cls'], 'no layer overlaps the window but extinction was added',
                           spec, dict(sigma=s, lo=lo, hi=hi, levels=llev))
         if bottom < 0 and top < 0 and not np.allclose(s, mix, rtol=1e-9, atol=0):
